@@ -90,6 +90,16 @@ Definition corpus : list (string * (style * prog)) :=
                        (ELit (LBool true)) false 0);
            IStmt (STry [SPrint [ECall 1 []]; SThrow 0] [(0, [SPrint [ELit (LStr "caught")]])]);
            IStmt (SPrint [ELit (LStr "end")])]));
+    (* same family as qualified-literal-toplevel-while-if, without any qualified literal: a
+       type-qualified constructor `[f1 == 2]@Union(..)` under `case` inside an `if` inside a
+       top-level `while`: "There are no suitable meanings for the operator `case' ... could be
+       suitable if imported" although the Union type is imported *)
+    ("union-case-in-if-in-toplevel-while",
+     (sh, [IVar TMI (mi 1);
+           IStmt (SWhile (EPrim (PGt NMI) [EGlob 0; mi 0])
+                         [SAssG 0 (EPrim (PSub NMI) [EGlob 0; mi 1]);
+                          SPrint [EIf (ECase 1 (EUni [BStr; BMI] 1 (mi 2))) (EUGet 1 (EUni [BStr; BMI] 1 (mi 2))) (mi 5)]]);
+           IStmt (SPrint [EGlob 0])]));
     (* sanity entries that must agree *)
     ("iterate-in-for",
      (sq, [IVar TMI (mi 0);
@@ -166,6 +176,67 @@ Definition corpus : list (string * (style * prog)) :=
            IStmt (SPrint [EPrim (PUnbox DB NMI) [EPrim (PBump DB NMI) [EGlob 2]]; ELit (LStr " ");
                           EPrim (PUnbox DB NMI) [EPrim (PTwice DB NMI) [EGlob 2]]; ELit (LStr " ");
                           EPrim (PUnbox DB NMI) [EPrim (PScale DB NMI) [EGlob 2; mi 2]]])]));
+    ("records",
+     (sq, [IVar (TRec [BMI; BStr]) (ERec [BMI; BStr] [mi 3; ELit (LStr "a")]);
+           IConst (TRec [BInt; BBool; BMI]) (ERec [BInt; BBool; BMI] [ELit (LNum NInt 7); ELit (LBool true); mi 9]);
+           IFun (mkFun 1 [TRec [BMI; BStr]; TMI] (TRec [BMI; BStr])
+                       [(TRec [BMI; BStr], ERec [BMI; BStr] [EPrim (PAdd NMI) [EField 0 (ELoc 0); ELoc 1];
+                                                             EPrim PCat [EField 1 (ELoc 0); ELit (LStr "x")]])]
+                       [SSetL 2 0 (EPrim (PMul NMI) [EField 0 (ELoc 2); mi 2])]
+                       (ERec [BMI; BStr] [EField 0 (ELoc 2); EField 1 (ELoc 2)]) true 2);
+           IStmt (SPrint [EField 0 (EGlob 0); ELit (LStr " "); EField 1 (EGlob 0); ELit (LStr " "); EField 0 (EGlob 1);
+                          ELit (LStr " "); EField 1 (EGlob 1); ELit (LStr " "); EField 2 (EGlob 1)]);
+           IStmt (SSetG 0 0 (mi 5));
+           IStmt (SSetG 0 1 (EPrim PCat [EField 1 (EGlob 0); ELit (LStr "b")]));
+           IStmt (SPrint [EField 0 (EGlob 0); ELit (LStr " "); EField 1 (EGlob 0)]);
+           IStmt (SAssG 0 (ECall 1 [ERec [BMI; BStr] [EField 0 (EGlob 0); EField 1 (EGlob 0)]; mi 10]));
+           IStmt (SPrint [EField 0 (EGlob 0); ELit (LStr " "); EField 1 (EGlob 0); ELit (LStr " ");
+                          EField 2 (EIf (ELit (LBool true)) (EGlob 1) (EGlob 1))]);
+           IStmt (SFor (mi 1) (mi 2) [SSetG 0 0 (EPrim (PAdd NMI) [EField 0 (EGlob 0); ELoc 0])]);
+           IStmt (SPrint [EField 0 (EGlob 0)])]));
+    ("arrays",
+     (sq, [IVar (TArr BMI) (EArrLit BMI [mi 3; mi 4; mi 5]);
+           IVar (TArr BStr) (EPrim (PANew BStr) [mi 2; ELit (LStr "ab")]);
+           IConst (TArr BBool) (EArrLit BBool [ELit (LBool true)]);
+           IStmt (SPrint [EGlob 0; ELit (LStr " "); EGlob 1; ELit (LStr " "); EGlob 2; ELit (LStr " ");
+                          EPrim (PALen BMI) [EGlob 0]; ELit (LStr " "); EPrim (PAGet BMI) [EGlob 0; mi 1]]);
+           IStmt (SSetIG 0 (EPrim (PMod NMI) [mi 7; EPrim (PALen BMI) [EGlob 0]]) (mi 9));
+           IStmt (SSetIG 1 (mi 0) (EPrim PCat [EPrim (PAGet BStr) [EGlob 1; mi 1]; ELit (LStr "c")]));
+           IStmt (SPrint [EGlob 0; ELit (LStr " "); EGlob 1]);
+           IFun (mkFun 1 [TArr BMI] (TArr BMI)
+                       [(TArr BMI, EPrim (PANew BMI) [EPrim (PALen BMI) [ELoc 0]; mi 0])]
+                       [SFor (mi 0) (EPrim (PSub NMI) [EPrim (PALen BMI) [ELoc 0]; mi 1])
+                             [SSetIL 1 (ELoc 2) (EPrim (PMul NMI) [EPrim (PAGet BMI) [ELoc 0; ELoc 2]; mi 2])];
+                        SSetIL 1 (mi 0) (mi 1)]
+                       (EArrLit BMI [EPrim (PAGet BMI) [ELoc 1; mi 0]; EPrim (PAGet BMI) [ELoc 1; mi 1]]) true 3);
+           IStmt (SPrint [ECall 1 [EArrLit BMI [mi 1; mi 2]]]);
+           IStmt (SForIn BMI (EGlob 0) [SPrint [ELoc 0]])]));
+    ("unions",
+     (sq, [IVar (TUni [BMI; BStr]) (EUni [BMI; BStr] 0 (mi 3));
+           IVar (TUni [BMI; BStr]) (EUni [BMI; BStr] 1 (ELit (LStr "ab")));
+           IStmt (SPrint [ECase 0 (EGlob 0); ELit (LStr " "); ECase 1 (EGlob 0); ELit (LStr " "); ECase 1 (EGlob 1)]);
+           IStmt (SPrint [EUGet 0 (EGlob 0); ELit (LStr " "); EUGet 1 (EGlob 1)]);
+           IFun (mkFun 1 [TUni [BMI; BStr]] TMI []
+                       [SExitV (ECase 0 (ELoc 0)) (EPrim (PAdd NMI) [EUGet 0 (ELoc 0); mi 1])]
+                       (EPrim PLen [EUGet 1 (ELoc 0)]) true 2);
+           IStmt (SPrint [ECall 1 [EGlob 0]; ELit (LStr " "); ECall 1 [EGlob 1]]);
+           IStmt (SAssG 0 (EUni [BMI; BStr] 1 (ELit (LStr "zz"))));
+           IStmt (SPrint [ECall 1 [EGlob 0]; ELit (LStr " ");
+                          EIf (ECase 1 (EGlob 0)) (EUGet 1 (EGlob 0)) (ELit (LStr "no"))])]));
+    ("closures",
+     (sq, [IFun (mkFun 1 [TMI; TStr; TMI] TMI [] [SPrint [ELoc 1]]
+                       (EPrim (PAdd NMI) [EPrim (PMul NMI) [ELoc 0; mi 10]; ELoc 2]) false 0);
+           IVar TMI (mi 4);
+           IVar (TFun [BMI] BMI) (EClo 1 [BMI] BMI [mi 2; ELit (LStr "x")]);
+           IFun (mkFun 2 [TFun [BMI] BMI; TMI] TMI [] []
+                       (EApp (ELoc 0) [EPrim (PAdd NMI) [ELoc 1; mi 1]]) false 2);
+           IFun (mkFun 3 [TMI] (TFun [BMI] BMI) [(TStr, ELit (LStr "cap"))] []
+                       (EClo 1 [BMI] BMI [ELoc 0; ELit (LStr "cap")]) true 2);
+           IStmt (SPrint [EApp (EGlob 1) [mi 7]]);
+           IStmt (SPrint [ECall 2 [EGlob 1; EGlob 0]]);
+           IStmt (SPrint [EApp (ECall 3 [mi 5]) [mi 1]]);
+           IStmt (SAssG 1 (ECall 3 [mi 4]));
+           IStmt (SPrint [ECall 2 [EGlob 1; mi 0]])]));
     ("string-escapes",
      (sq, [IStmt (SPrint [ELit (LStr "a_b""c__d"); EPrim PLen [ELit (LStr "_""")]])]))
   ].
